@@ -502,16 +502,20 @@ def c28_model(ctx, thorough):
     r = tlc_parallel(ctx, [
         ("main", "MC_RPCClient", cfg % ("MCAll" if thorough else "MCQuick", "C28"), 1500),
         ("noflight", "MC_RPCClient", cfg % ("MCNoFlight", "C28Strict"), 600),
+        # the fixed-code variant (reports/conc-fix-2.diff: a mutex per handler) must satisfy C28 with no waiver
+        ("fixed", "MC_RPCClient", cfg % ("MCFixed" if thorough else "MCFixedQuick", "C28Strict"), 1500),
         ("finding", "MC_RPCClient", cfg % ("MCFinding", "C28Strict"), 600)])
     mc = r["main"]
     if mc.violated:
         raise vlib.Inconclusive("model violates %s beyond the recorded finding -- spec error, no verdict" % mc.violated)
     if r["noflight"].violated:
         raise vlib.Inconclusive("model violates C28 with no record in flight (%s) -- spec error, no verdict" % r["noflight"].violated)
+    if r["fixed"].violated:
+        raise vlib.Inconclusive("the fixed-code variant of the model violates %s -- spec error, no verdict" % r["fixed"].violated)
     if not r["finding"].violated:
         raise vlib.Inconclusive("the recorded finding (send on a channel closed between lookup and send) is not reachable in the model")
-    mc.generated += r["noflight"].generated
-    mc.distinct += r["noflight"].distinct
+    mc.generated += r["noflight"].generated + r["fixed"].generated
+    mc.distinct += r["noflight"].distinct + r["fixed"].distinct
     return mc
 
 
